@@ -65,8 +65,13 @@ def case_st(draw, mode):
         elems = []
         for _ in range(n):
             k = draw(st.sampled_from(['rot', 'rot', 'rotT', 'hwp']))
+            rots = [i for i, e in enumerate(elems) if 'angles' in e and 'same_as' not in e]
             if k == 'hwp':
                 elems.append({'k': 'hwp'})
+            elif rots and draw(st.integers(0, 2)) == 0:
+                # the SAME rotation object again (as itself or transposed)
+                j = draw(st.sampled_from(rots))
+                elems.append({'k': k, 'angles': elems[j]['angles'], 'same_as': j})
             else:
                 elems.append({'k': k, 'angles': draw(angles_st(shape))})
         pol = draw(st.booleans())
@@ -190,7 +195,18 @@ def check(recipe, mode):
         if recipe['pol']:
             elems = elems + [{'k': 'pol'}]
         # application order = listed order; operator order is the reverse
-        built = [must_not_raise('build', build, e) for e in elems]
+        built = []
+        base_rot = {}
+        for i, e in enumerate(elems):
+            if 'angles' in e:
+                j = e.get('same_as', i)
+                if j not in base_rot:
+                    base_rot[j] = must_not_raise('build', QURotationOperator, arr(e['angles']), struct)
+                built.append(base_rot[j].T if e['k'] == 'rotT' else base_rot[j])
+            else:
+                built.append(must_not_raise('build', build, e))
+        if any('same_as' in e for e in elems):
+            classes.append('shared_rotation_object')
         # every operator and its transpose by value
         for e, o in zip(elems, built):
             want = apply_ref([e], kind, comps, adt)
